@@ -150,6 +150,44 @@ pub fn hist_case(g: G, mutate: bool) -> BoxedStrategy<HistCase> {
         .boxed()
 }
 
+/// Declarations html2text understands, for style attributes on random elements.  The oracle is
+/// route equality, so any declaration is in the domain.
+const STYLE_DECLS: &[&str] = &[
+    "white-space:pre",
+    "white-space:pre-wrap",
+    "white-space:normal",
+    "white-space:pre-line",
+    "color:#112233",
+    "background-color:#a0b0c0",
+    "color:red !important",
+    "display:none",
+    "display:inline",
+    "display:block",
+    "height:0;overflow:hidden",
+    "max-height:0;overflow:hidden",
+    "height:0;max-height:4px;overflow:hidden",
+    "white-space:pre;color:#010203",
+    "bogus:1;white-space:pre",
+];
+
+/// Documents with style attributes on random elements (incl. table rows and cells), rendered with use_doc_css.
+pub fn styled_hist_case(g: G) -> BoxedStrategy<HistCase> {
+    (hist_case(g, false), prop::collection::vec(any::<u8>(), 1..16))
+        .prop_map(|(mut case, choices)| {
+            let mut i = 0usize;
+            crate::gen::for_attrs_mut(&mut case.doc.blocks, &mut |_, a| {
+                let c = choices[i % choices.len()];
+                i += 1;
+                if c % 3 == 0 {
+                    a.style = Some(STYLE_DECLS[(c / 3) as usize % STYLE_DECLS.len()].to_string());
+                }
+            });
+            case.cfg.doc_css = true;
+            case
+        })
+        .boxed()
+}
+
 pub fn property() -> Property {
     // ids / anchor names: fragment markers exist only in the line-oriented routes and must not
     // make them differ from the string routes
@@ -158,11 +196,12 @@ pub fn property() -> Property {
     Property {
         id: "C10",
         level: "exploration",
-        rule: "documents (grammar, and byte-mutated) x configurations (standard decorators, option mixes, ASCII custom decorator) x histories of <= 6 renders (route in {string, lines, coloured-identity}, width in {0, tiny, w, w+k, arbitrary; repeats}) executed against ONE render tree built once and cloned per render; oracle: every result equals a fresh one-shot string_from_read at that width (TooNarrow included), two identical one-shot calls are equal, lines/coloured/staged-coloured one-shot routes equal the string route, free functions equal their config:: spellings. Non-trivial = >= 3 renders over >= 2 distinct widths of a document with a table or list, with a TooNarrow after a successful render; distinct by the whole case.",
+        rule: "documents (grammar, and byte-mutated) x configurations (standard decorators, option mixes, ASCII custom decorator) x histories of <= 6 renders (route in {string, lines, coloured-identity}, width in {0, tiny, w, w+k, arbitrary; repeats}) executed against ONE render tree built once and cloned per render (sub-check history_styled: style attributes with white-space / colour / display / height declarations on random elements incl. rows and cells, use_doc_css); oracle: every result equals a fresh one-shot string_from_read at that width (TooNarrow included), two identical one-shot calls are equal, lines/coloured/staged-coloured one-shot routes equal the string route, free functions equal their config:: spellings. Non-trivial = >= 3 renders over >= 2 distinct widths of a document with a table or list, with a TooNarrow after a successful render; distinct by the whole case.",
         assumptions: vec!["identity colour map for the coloured routes", "histories of at most 6 renders"],
         hang_is_violation: false,
         subs: vec![
             PropSub::new("history", 12_000, 120_000, move || hist_case(g.clone(), false), check_history).with_validity(|c| c.doc.valid() && !c.ops.is_empty()).boxed(),
+            PropSub::new("history_styled", 8_000, 80_000, move || styled_hist_case(G::default().with_ids()), check_history).with_validity(|c| c.doc.valid() && !c.ops.is_empty()).boxed(),
             PropSub::new("history_mutated", 4_000, 40_000, move || hist_case(g2.clone(), true), check_history).with_validity(|c| c.doc.valid() && !c.ops.is_empty()).boxed(),
             FuzzSub { name: "fuzz_render", target: "fuzz_render", props: &["C10"], seconds: 120 }.boxed(),
         ],
